@@ -135,6 +135,7 @@ def _ref_costs(prog, info, summ, model):
         return [p != 0 for p in wprec(name)]
 
     tot = {'params_bit': 0.0, 'ops_bit': 0.0}
+    d8 = {'params_bit': 0.0, 'ops_bit': 0.0}
     per_layer = {}
     for name, li in info.items():
         p = prod[name]
@@ -161,8 +162,13 @@ def _ref_costs(prog, info, summ, model):
         ob = sum(per_out * sites * b * in_bits for b in bits)
         tot['params_bit'] += pb
         tot['ops_bit'] += ob
-        per_layer[name] = {'in_alive': in_alive, 'out_alive': sum(1 for b in bits if b != 0), 'bits': bits, 'in_bits': in_bits,
+        oa = sum(1 for b in bits if b != 0)
+        per_layer[name] = {'in_alive': in_alive, 'out_alive': oa, 'bits': bits, 'in_bits': in_bits,
                            'params_bit': pb, 'ops_bit': ob}
+        # what finding D8 predicts: the exact layer cost discounted once more by (alive output channels / all output channels)
+        d8['params_bit'] += pb * oa / max(1, len(bits))
+        d8['ops_bit'] += ob * oa / max(1, len(bits))
+    tot['d8'] = d8
     return tot, per_layer
 
 
@@ -213,7 +219,8 @@ def _check(nas, x, prog, info, model, record, metrics, label, add, d8_ok):
         ok, why = tol.cost_close(got, tot[name])
         if not ok:
             sig = f'cost-differs/{name}'
-            if d8_ok and pruned:
+            # attributed to finding D8 only when the value is exactly what the double discount predicts
+            if d8_ok and pruned and tol.cost_close(got, tot['d8'][name])[0]:
                 sig += '/per-channel-with-pruned-channels'
             add('cost-differs', sig, f'{label}: get_cost({name})={got} but the exact bit-cost of the reported assignment is {tot[name]} '
                                      f'(per layer: { {n: (pl["bits"], pl["in_alive"]) for n, pl in per_layer.items()} })')
